@@ -131,7 +131,38 @@ func runC10(c *Ctx) {
 			f.cap = k
 			f.kind = c10MajorFor(c, b, n)
 		default:
-			return
+			// the value comes from a reading helper: every non-nil value it can return is one buffer it allocates,
+			// with the cap and the major-type test of that allocation
+			var mk *ssa.MakeSlice
+			okH := false
+			if h, _ := helperCall(v); h != nil {
+				okH = true
+				for _, l := range c.LeavesF(v, nil) {
+					lv := strip(l.Val)
+					if lv == nil || lv.Op == "nil" {
+						continue
+					}
+					m2, isMk := lv.V.(*ssa.MakeSlice)
+					if !isMk || (mk != nil && mk != m2) {
+						okH = false
+						break
+					}
+					mk = m2
+				}
+			}
+			if !okH || mk == nil {
+				return
+			}
+			n := c.E(mk.Len)
+			k, ok := c.capAt(mk.Block(), n)
+			key := dec.Name + " › make " + p
+			if !ok {
+				c.Bad("C10.B1-bounded-alloc", key, mk.Pos(), "allocation sized by the input value "+abbreviate(n.String())+" is not dominated by an upper-bound test on that value: a hostile length allocates without limit")
+			} else {
+				c.OK("C10.B1-bounded-alloc", key, mk.Pos(), "allocation of "+p+" dominated by size <= "+itoa(int(k)))
+			}
+			f.cap = k
+			f.kind = c10MajorFor(c, mk.Block(), n)
 		}
 		dfs = append(dfs, f)
 	})
@@ -149,6 +180,24 @@ func runC10(c *Ctx) {
 		}
 	})
 	c.Floor("C10.B1-bounded-alloc", 4)
+	// the buffers are filled completely: the decoder reads byte strings with io.ReadFull, never with a single Read
+	// (which may return fewer bytes than asked for — what follows is then parsed from the middle of the string)
+	nFull := 0
+	c.WalkInl(dec.SSA, 2, func(ev InlEvent) {
+		ci, ok := ev.In.(*ssa.Call)
+		if !ok {
+			return
+		}
+		x := c.CallX(ci)
+		if x.Op == "call" && nameMatches(x.Name, "io.ReadFull") {
+			nFull++
+			c.OK("C10.B6-buffers-filled-whole", dec.Name+" › "+c.short(ev.Fn.String())+" › io.ReadFull", ci.Pos(), "byte string read to its full announced length")
+		}
+		if x.Op == "invoke" && nameMatches(x.Name, "io.Reader.Read") {
+			c.Bad("C10.B6-buffers-filled-whole", dec.Name+" › "+c.short(ev.Fn.String())+" › Read", ci.Pos(), "a byte string is read with a single Read call: a reader that delivers the bytes in pieces leaves the buffer partly filled and the rest of the string is parsed as the next field")
+		}
+	})
+	c.Floor("C10.B6-buffers-filled-whole", 1)
 
 	// ---- encoder ---------------------------------------------------------------------------------
 	var efs []cborField
